@@ -34,10 +34,9 @@ theorem hdrB_length (d nl : Nat) : (hdrB d nl).length = 1 + (Spec.extBytes d).le
 abstract stable insertion -/
 theorem insertBody_conc (ms : Nat) (a : Msg) (n : Nat) (v : Bytes) (hs : Shape a) (hn : n < lastNum a.opts)
     (hv : v.length ≤ 65804) :
-    ∃ p, p ≤ n ∧
     insertBody (conc ms a) n v =
-      if ms = 0 ∨ (conc ms a).buf.length + (Spec.encOpt (n - p) v).length ≤ ms then
-        R.ok ((Spec.encOpt (n - p) v).length, conc ms { a with opts := Spec.insertStable n v a.opts })
+      if ms = 0 ∨ (conc ms a).buf.length + (Spec.encOpt (n - prevNum n a.opts) v).length ≤ ms then
+        R.ok ((Spec.encOpt (n - prevNum n a.opts) v).length, conc ms { a with opts := Spec.insertStable n v a.opts })
       else R.ok (0, conc ms a) := by
   have hB := optsB_of_shape hs
   have hex : ∃ o ∈ a.opts, n < o.1 := by
@@ -47,8 +46,11 @@ theorem insertBody_conc (ms : Nat) (a : Msg) (n : Nat) (v : Bytes) (hs : Shape a
       refine ⟨l, by rw [h]; simp, ?_⟩
       rw [h, lastNum_eq_lastD, lastD_append_cons, lastD_nil] at hn
       exact hn
-  obtain ⟨pre, nx, post, e1, e2, e3, e4, e5⟩ :=
+  obtain ⟨pre, nx, post, e1, e2, e3, e4, e5, e6⟩ :=
     findInsert_abs n v a.opts ((Spec.extBytes a.token.length).length + a.token.length) 0 hex
+  have hpv : prevNum n a.opts = lastD 0 pre := by unfold prevNum; rw [← e6]
+  rw [hpv]
+  clear e6 hpv
   rw [e1] at hB
   obtain ⟨b1, b2, b3, b4, b5, _⟩ := optsB_split hB
   -- p = number of the option before the insertion point
@@ -58,7 +60,6 @@ theorem insertBody_conc (ms : Nat) (a : Msg) (n : Nat) (v : Bytes) (hs : Shape a
     · rw [List.concat_eq_append] at h
       rw [h, lastD_append_cons, lastD_nil]
       exact e2 l (by rw [h]; simp)
-  refine ⟨lastD 0 pre, hpn, ?_⟩
   generalize hp : lastD 0 pre = p at *
   have hδ : (n - p) % 65536 = n - p := Nat.mod_eq_of_lt (by omega)
   have henc : optEncode (n - p) v = Spec.encOpt (n - p) v := optEncode_eq _ _ (by omega) hv
@@ -199,5 +200,71 @@ theorem removeOption_conc (ms : Nat) (a : Msg) (n : Nat) (hs : Shape a) :
         have hmono := extBytes_len_mono (show nx.1 - n ≤ nx.1 - p by omega)
         simp only [encOpts_split, hp, Spec.encOpts, List.length_append, encOpt_length] at hTwl ⊢
         omega
+/-- `coap_update_option` when the option is present: the value of the first one is replaced in place; capacity is
+only needed when the encoding grows -/
+theorem updateOption_found (ms : Nat) (a : Msg) (n : Nat) (v : Bytes) (hs : Shape a) (hv : v.length ≤ 65804)
+    (hh : Spec.hasOpt n a.opts = true) :
+    updateOption (conc ms a) n v =
+      if (conc ms { a with opts := Spec.replaceFirst n v a.opts }).buf.length ≤ (conc ms a).buf.length ∨ ms = 0 ∨
+         (conc ms { a with opts := Spec.replaceFirst n v a.opts }).buf.length ≤ ms
+      then R.ok (1, conc ms { a with opts := Spec.replaceFirst n v a.opts })
+      else R.ok (0, conc ms a) := by
+  have hB := optsB_of_shape hs
+  obtain ⟨pre, w, post, e1, _, e3, _, e5⟩ :=
+    findEq_abs n a.opts ((Spec.extBytes a.token.length).length + a.token.length) 0 hh
+  rw [e1] at hB
+  obtain ⟨b1, b2, b3, b4, b5, _⟩ := optsB_split hB
+  simp only at b2 b3 b4 b5
+  generalize hp : lastD 0 pre = p at *
+  have hnv : ¬ (v.length > 65804) := by omega
+  unfold updateOption
+  simp only [hnv, if_false, items_conc ms a hs, e3, itemOf]
+  obtain ⟨A, hA⟩ : ∃ A, A = Spec.encToken a.token ++ Spec.encOpts 0 pre := ⟨_, rfl⟩
+  obtain ⟨Z, hZ⟩ : ∃ Z, Z = Spec.encOpts n post ++ Spec.encPayload a.payload := ⟨_, rfl⟩
+  have hofs : (Spec.extBytes a.token.length).length + a.token.length + (Spec.encOpts 0 pre).length = A.length := by
+    rw [hA]; simp [Spec.encToken]; omega
+  have hbuf : (conc ms a).buf = A ++ (Spec.encOpt (n - p) w ++ Z) := by
+    simp only [conc, e1, encOpts_split, hp, Spec.encOpts, hA, hZ, List.append_assoc]
+  have hbuf' : (conc ms { a with opts := Spec.replaceFirst n v a.opts }).buf = A ++ (Spec.encOpt (n - p) v ++ Z) := by
+    simp only [conc, e5 v, encOpts_split, hp, Spec.encOpts, hA, hZ, List.append_assoc]
+  have henc : optEncode (n - p) v = Spec.encOpt (n - p) v := optEncode_eq _ _ (by omega) hv
+  have hsz : optEncodeSize (n - p) v.length = (Spec.encOpt (n - p) v).length := by rw [← optEncode_length, henc]
+  have hold : ¬ ((Spec.encOpt (n - p) w).length = 0) := by rw [encOpt_length]; omega
+  simp only [hold, if_false, hsz, henc, hofs]
+  have hl : (conc ms a).buf.length = A.length + ((Spec.encOpt (n - p) w).length + Z.length) := by rw [hbuf]; simp
+  have hl' : (conc ms { a with opts := Spec.replaceFirst n v a.opts }).buf.length =
+      A.length + ((Spec.encOpt (n - p) v).length + Z.length) := by rw [hbuf']; simp
+  by_cases hfit : (conc ms { a with opts := Spec.replaceFirst n v a.opts }).buf.length ≤ (conc ms a).buf.length ∨ ms = 0 ∨
+         (conc ms { a with opts := Spec.replaceFirst n v a.opts }).buf.length ≤ ms
+  · rw [if_pos hfit]
+    have hc : ¬ ((Spec.encOpt (n - p) v).length > (Spec.encOpt (n - p) w).length ∧
+        ¬ checkResize (conc ms a) ((conc ms a).buf.length + (Spec.encOpt (n - p) v).length - (Spec.encOpt (n - p) w).length) = true) := by
+      rintro ⟨h1, h2⟩
+      apply h2
+      apply checkResize_true
+      rcases hfit with h | h | h
+      · omega
+      · exact Or.inl h
+      · right; show _ ≤ ms; omega
+    rw [if_neg hc]
+    refine congrArg R.ok (Prod.ext rfl ?_)
+    refine conc_upd ms a (Spec.replaceFirst n v a.opts) _ _ _ ?_ ?_ ?_
+    · rw [hbuf, take_app_len, ← List.append_assoc, ← List.length_append, drop_app_len, e5 v, hA, hZ]
+      simp only [encOpts_split, hp, Spec.encOpts, List.append_assoc]
+    · show lastNum a.opts = _
+      rw [e5 v, e1, lastNum_eq_lastD, lastNum_eq_lastD, lastD_append_cons, lastD_append_cons]
+    · rw [e5 v, e1]
+      simp only [encOpts_split, hp, Spec.encOpts, List.length_append]
+      omega
+  · rw [if_neg hfit]
+    have hc : (Spec.encOpt (n - p) v).length > (Spec.encOpt (n - p) w).length ∧
+        ¬ checkResize (conc ms a) ((conc ms a).buf.length + (Spec.encOpt (n - p) v).length - (Spec.encOpt (n - p) w).length) = true := by
+      have h1 : ¬ _ ≤ _ := fun h => hfit (Or.inl h)
+      have h2 : ¬ ms = 0 := fun h => hfit (Or.inr (Or.inl h))
+      have h3 : ¬ _ ≤ ms := fun h => hfit (Or.inr (Or.inr h))
+      refine ⟨by omega, ?_⟩
+      rw [checkResize_false _ _ ⟨h2, by show _ > ms; omega⟩]
+      simp
+    rw [if_pos hc]
 
 end Coap
